@@ -1,11 +1,11 @@
 """C11 — watchdog (Mon_C11.tla)"""
 from . import nodecommon as nc
-from .c11_plan import PROFILE, plans, ASSUME
+from .c11_plan import PROFILE, plans, ASSUME, enum_plans
 
 
 def run(tier, seed):
     mc, sim = plans(tier)
-    ck = nc.run_property("C11", tier, seed, "Inv11", PROFILE, mc, sim, 1500 if tier == "thorough" else 240, ASSUME)
+    ck = nc.run_property("C11", tier, seed, "Inv11", PROFILE, mc, sim, 1500 if tier == "thorough" else 240, ASSUME, enum_plan=enum_plans(tier))
     return ck.finish()
 
 
